@@ -7,7 +7,7 @@ CLAUSES = ["C05_Diffusion", "C05_Central", "C05_Upwind", "C05_UpwindAlt", "C05_T
 
 def run(tier, seed):
     return opscheck.run_property(
-        "C05", tier, seed, design=opscheck.design_ops("C05", None), clauses_for=lambda cfg: CLAUSES, extra_configs=opsdrive.systematic_configs(variants=(True, False, "uni")), n_quick=18, n_thorough=150,
+        "C05", tier, seed, design=opscheck.design_ops("C05", None), clauses_for=lambda cfg: CLAUSES, extra_configs=opsdrive.systematic_configs(variants=(True, False, "uni")) + opsdrive.large_configs(), n_quick=18, n_thorough=150,
         gen_kw=[{}, {"nmax": 2}, {"uniform": True, "nmin": 3}], extra_conform=["grad", "linmean", "upmean", "divu", "tvd1"],
         rule="9 grid classes x seeded spacings / coefficient fields / velocity sign patterns; each episode compares "
              "the builder matrix with the explicit chain applied to the full unit basis (ghost cells included); "
